@@ -74,6 +74,7 @@ func (ci *connIO) mayBeConn(v ssa.Value) bool {
 // cannot cause a write to it.
 var readOnlyArg = map[string]map[int]bool{
 	"io.Copy":          {1: true},
+	"io.CopyBuffer":    {1: true},
 	"io.CopyN":         {1: true},
 	"io.ReadFull":      {0: true},
 	"io.ReadAtLeast":   {0: true},
@@ -199,7 +200,7 @@ func (ci *connIO) readsConn(fn *ssa.Function) bool {
 		if !ci.p.inModule(f) {
 			continue
 		}
-		for _, call := range ci.p.CallsIn(f, "io.ReadFull", "io.ReadAtLeast", "io.Copy") {
+		for _, call := range ci.p.CallsIn(f, "io.ReadFull", "io.ReadAtLeast", "io.Copy", "io.CopyBuffer") {
 			for _, a := range call.Common().Args {
 				if ci.argMayBeConn(a) {
 					return true
@@ -271,7 +272,7 @@ func (ci *connIO) ioKind(call ssa.CallInstruction) string {
 		if ci.argMayBeConn(c.Args[0]) || ci.wrapsConn(c.Args[0]) {
 			return "read"
 		}
-	case "io.Copy":
+	case "io.Copy", "io.CopyBuffer":
 		if ci.argMayBeConn(c.Args[1]) || ci.wrapsConn(c.Args[1]) {
 			return "read"
 		}
